@@ -491,6 +491,9 @@ func (v *Verifier) arrayBase(s *State, e ast.Expr) *Term {
 		if o, _ := v.info.ObjectOf(x).(*types.Var); o != nil && v.boxed[o] {
 			return s.vars[o]
 		}
+		if o, _ := v.info.ObjectOf(x).(*types.Var); o != nil && o.Pkg() != nil && o.Parent() == o.Pkg().Scope() {
+			return v.globalArrayBase(s, o)
+		}
 		unsupported("slicing unboxed array %s", x.Name)
 	case *ast.SelectorExpr:
 		if ref, _, idx, ok := v.fieldRef(s, x); ok {
@@ -929,6 +932,15 @@ func (v *Verifier) bitUF(s *State, name string, a, b *Term, w int) *Term {
 		}
 		if name == "bxor" {
 			s.assume(Eq(Eq(r, IntLit(0)), Eq(a, b)))
+			if b.isInt() && b.Int.Sign() == 0 {
+				s.assume(Eq(r, a))
+			}
+			if a.isInt() && a.Int.Sign() == 0 {
+				s.assume(Eq(r, b))
+			}
+		}
+		if name == "bor" {
+			s.assume(Implies(And(Ge(a, IntLit(0)), Ge(b, IntLit(0))), Eq(Eq(r, IntLit(0)), And(Eq(a, IntLit(0)), Eq(b, IntLit(0))))))
 		}
 	}
 	return r
@@ -1113,6 +1125,14 @@ func (v *Verifier) extLemmas(s *State, x *winInfo) {
 		lm := Or(Eq(x.c, y.c), Neq(Select(x.c, k), Select(y.c, k)))
 		x.lemmas = append(x.lemmas, lm)
 		y.lemmas = append(y.lemmas, lm)
+		s.pc = append(s.pc, lm)
+	}
+	// also against the all-zero array (the representation of bzeros(n))
+	if _, es, ok := arrSorts(x.c.Sort); ok && (es == SInt || strings.HasPrefix(es, "(_ BitVec")) {
+		k := v.fresh("xk", SInt)
+		z := ConstArray(x.c.Sort, zeroOfSort(es))
+		lm := Or(Eq(x.c, z), Neq(Select(x.c, k), zeroOfSort(es)))
+		x.lemmas = append(x.lemmas, lm)
 		s.pc = append(s.pc, lm)
 	}
 	v.defArrays = append(v.defArrays, x)
@@ -1410,4 +1430,34 @@ func (v *Verifier) noBoundVars(what string, ts ...*Term) {
 			}
 		}
 	}
+}
+
+// globalArrayBase: a package-level array variable that is sliced lives at a fixed base
+// that existed before the call; it is assumed to still hold its initial value (the
+// check that no function under contract writes it is part of the frame obligations).
+func (v *Verifier) globalArrayBase(s *State, o *types.Var) *Term {
+	at, ok := o.Type().Underlying().(*types.Array)
+	if !ok {
+		unsupported("slicing package variable %s", o.Name())
+	}
+	b := Const("gbase."+smtIdent(o.Pkg().Name()+"."+o.Name()), SInt)
+	key := "gbase:" + b.Op
+	if !s.locks[key] {
+		s.locks[key] = true
+		s.assume(existed(b, v.entry.alloc))
+		s.assume(Lt(IntLit(0), b))
+		_, h, _ := v.sliceHeap(s, at.Elem())
+		var init *Term
+		if ie := v.eng.globalInit(o); ie != nil {
+			init = v.evalTable(o, ie)
+		} else {
+			init = v.zeroOf(o.Type())
+		}
+		if init != nil && s.epoch == 0 {
+			ent := v.entryHeap(v.sliceHeapNameT(at.Elem()), h.Sort)
+			s.assume(Eq(Select(ent, b), init))
+			v.assumed["package-level array "+o.Pkg().Name()+"."+o.Name()+" holds its initial value at entry (never modified after init)"] = true
+		}
+	}
+	return b
 }
